@@ -21,14 +21,14 @@ package zerolog
 // encoder_json.go
 
 //@ func appendJSON(dst, j) res
-//@   props C01 C02
+//@   props C01
 //@   arith int
 //@   flag tags !binary_log
 //@   requires valueok(dst) && wholevalue(j)
 //@   ensures emitsvalue(res, dst)
 
 //@ func appendCBOR(dst, cbor) res
-//@   props C01 C02
+//@   props C01
 //@   arith int
 //@   flag tags !binary_log
 //@   flag noovf
